@@ -1,23 +1,107 @@
-(* C17 -- WARC framing.  Statements only; proofs in Warc/WarcProofs.v. *)
-From PP Require Import Warc.WarcDefs.
+(* C17 -- WARC records are framed exactly.  Statements only; proofs in
+   Warc/WarcProofs.v.  The model (Warc/WarcDefs.v) is WARCReader::Read with
+   ReadMore, HeaderReader::Line, strtoll, size_t arithmetic and overhang_, over
+   an abstract byte source [rread] with ghost state [rem] (bytes not yet
+   delivered) and invariant [rinv]:
+     rread_contract: a request of n > 0 bytes returns between 1 and n of the
+     remaining bytes, nothing only at end of file (util::ReadCompressed::Read on
+     an intact plain or compressed input -- C15).  Every fragmentation of the
+     stream is such a source.  WHang (fuel) never occurs. *)
+From PP Require Import Warc.WarcDefs Warc.WarcProofs Compress.CompressProofs.
 Local Open Scope Z_scope.
 
-(* strtoll on a plain decimal number followed by a non-digit *)
-Example C17_nonvacuous_strtoll :
-  strtoll [32; 49; 50; 51; 13; 10; 55] = (123, 4%nat) /\
-  strtoll [13; 10; 49; 50] = (12, 4%nat) /\
-  strtoll [45; 52; 13] = (-4, 2%nat) /\
-  strtoll [13; 10; 13; 10; 97] = (0, 0%nat).
+(* All record sequences (header lines of any number, CRLF or LF line ends, any
+   case of Content-Length, optional blanks and '+', bodies of ANY bytes and
+   sizes, also 0) over all fragmentations: exactly the records, byte for byte,
+   then a clean end of file. *)
+Theorem C17_records_exact :
+  forall (rstate : Type) (rread : rstate -> N -> option (list Z * rstate))
+         (rem : rstate -> list Z) (rinv : rstate -> Prop),
+    rread_contract rstate rread rem rinv ->
+    forall (recs : list (list Z)) (rs : rstate) (n fuel : nat),
+      rinv rs -> Forall wf_record recs -> rem rs = concat recs ->
+      (length recs < n)%nat -> (length (concat recs) + 1 < fuel)%nat ->
+      warc_read_all rstate rread n fuel rs [] = AllOk recs.
+Proof. exact records_exact_proof. Qed.
+Print Assumptions C17_records_exact.
+
+(* the same through the model of util::ReadCompressed on a plain file arriving
+   in any fragments f (magic detection, UncompressedWithHeader, then the pipe) *)
+Theorem C17_warc_file_exact :
+  forall (f : frags) (recs : list (list Z)) (n fuel : nat),
+    Forall wf_record recs -> fbytes f = concat recs ->
+    detect_magic (takeN kMagicSize (concat recs)) = None ->
+    (length recs < n)%nat -> (length (concat recs) + 1 < fuel)%nat ->
+    warc_file n fuel f = AllOk recs.
+Proof. exact warc_file_exact_proof. Qed.
+Print Assumptions C17_warc_file_exact.
+
+(* Broken framing is an error, never a silent resynchronisation or a shorter
+   success: whenever the whole stream is read successfully, the returned
+   records concatenated ARE the stream (every byte in exactly one record, in
+   order) and every record ends in CR LF CR LF.  So a stream cut anywhere but at
+   a record boundary, or with bytes between records, cannot succeed. *)
+Theorem C17_success_is_exact :
+  forall (rstate : Type) (rread : rstate -> N -> option (list Z * rstate))
+         (rem : rstate -> list Z) (rinv : rstate -> Prop),
+    rread_contract rstate rread rem rinv ->
+    forall (n fuel : nat) (rs : rstate) (ov : list Z) (recs : list (list Z)),
+      rinv rs -> warc_read_all rstate rread n fuel rs ov = AllOk recs ->
+      concat recs = ov ++ rem rs /\ Forall ends_with_trailer recs.
+Proof. exact success_is_exact_proof. Qed.
+Print Assumptions C17_success_is_exact.
+
+(* strtoll on a Content-Length value: blanks, optional '+', digits; what follows
+   (CR, LF, the next lines) does not matter once a digit was seen *)
+Theorem C17_strtoll_value :
+  forall ws (plus : bool) ds t,
+    all_space ws -> all_digit ds -> ds <> [] -> dval ds <= llong_max ->
+    (match t with [] => True | c :: _ => is_digit c = false end) ->
+    strtoll (ws ++ (if plus then [43] else []) ++ ds ++ t) =
+    (dval ds, (length ws + (if plus then 1 else 0) + length ds)%nat).
+Proof. exact strtoll_value. Qed.
+Print Assumptions C17_strtoll_value.
+
+(* ---- non-vacuity: a concrete two-record stream meets wf_record, and the
+   executable model reads it in 1-byte fragments and as one piece *)
+Definition ex_rec1 : list Z :=
+  [87;65;82;67;47;49;46;48;13;10;  88;58;32;121;13;10;
+   99;111;110;116;101;110;116;45;108;101;110;103;116;104;58;32;43;53;13;10;  13;10;
+   104;101;108;108;111;  13;10;13;10].
+Definition ex_rec2 : list Z :=
+  [87;65;82;67;47;49;46;48;10;  67;111;110;116;101;110;116;45;76;101;110;103;116;104;58;48;10;  10;  13;10;13;10].
+
+Example C17_nonvacuous_model_runs :
+  warc_file 5 200 (map (fun b => [b]) (ex_rec1 ++ ex_rec2)) = AllOk [ex_rec1; ex_rec2] /\
+  warc_file 5 200 [ex_rec1 ++ ex_rec2] = AllOk [ex_rec1; ex_rec2] /\
+  (* negative, empty and duplicate Content-Length, missing terminator: errors *)
+  warc_file 5 200 [[87;65;82;67;47;49;46;48;13;10; 67;111;110;116;101;110;116;45;76;101;110;103;116;104;58;32;45;52;13;10; 13;10]]
+    = AllErr WFormat [] /\
+  warc_file 5 200 [[87;65;82;67;47;49;46;48;13;10; 67;111;110;116;101;110;116;45;76;101;110;103;116;104;58;13;10; 13;10; 13;10;13;10]]
+    = AllErr WFormat [] /\
+  warc_file 5 200 [firstn 44 ex_rec1] = AllErr WEof [].
 Proof. vm_compute. repeat split. Qed.
 
-Theorem C17_strtoll_no_digits_no_conversion :
-  forall l, snd (strtoll l) = 0%nat -> fst (strtoll l) = 0.
+Example C17_nonvacuous_wf_record : wf_record ex_rec2.
 Proof.
-  intros l. unfold strtoll.
-  destruct (skip_space l 0) as [l1 n1].
-  destruct l1 as [|b r]; simpl.
-  - intros _. reflexivity.
-  - destruct (match b with 45 => _ | _ => _ end) as [[neg l2] n2] eqn:E.
-    destruct (scan_digits l2 0 0) as [v cnt]. destruct cnt; simpl; [reflexivity|]. intros H. lia.
+  exists [87;65;82;67;47;49;46;48], [[67;111;110;116;101;110;116;45;76;101;110;103;116;104;58;48]], [], [].
+  split; [reflexivity|]. split; [repeat constructor; lia|]. split; [reflexivity|]. split.
+  - apply hdrs_cl; [|constructor].
+    exists [67;111;110;116;101;110;116;45;76;101;110;103;116;104;58], [], false, [48], false.
+    repeat split; try reflexivity; try (repeat constructor; lia); try discriminate;
+      try (vm_compute; discriminate).
+  - split; [left; reflexivity|vm_compute; reflexivity].
 Qed.
-Print Assumptions C17_strtoll_no_digits_no_conversion.
+
+(* the body length taken from the header is never negative: "Content-Length: -4"
+   (strtoll accepts a sign, the result went into a size_t) is rejected.  Depends
+   on the regenerated flag warc_reject_negative. *)
+Theorem C17_content_length_nonnegative :
+  forall (rstate : Type) (rread : rstate -> N -> option (list Z * rstate))
+         fuel lfuel rs out consumed line seen len0, 0 <= len0 ->
+    match header_loop rstate rread fuel lfuel rs out consumed line seen len0 with
+    | HdrOk _ _ _ _ len => 0 <= len
+    | HdrErr _ _ => True
+    end.
+Proof. exact header_len_nonneg. Qed.
+Print Assumptions C17_content_length_nonnegative.
